@@ -984,6 +984,7 @@ class WorldImpl(World):
                         skip = self.choose('A', 2, (p.name, act[0])) if 'A' in self.kinds else 0
                         if skip:
                             self.activity += 1      # a postponed action is still pending: not quiescent
+                            self.progress += 1      # ... and not calm either: the environment chose to wait
                         if not skip:
                             if act[0] == 'connect':
                                 p.connect()
@@ -998,6 +999,7 @@ class WorldImpl(World):
                     skip = self.choose('A', 2, (p.name, p.outbox[0][0])) if 'A' in self.kinds else 0
                     if skip:
                         self.activity += 1
+                        self.progress += 1
                     if not skip:
                         if p.do_action(p.outbox[0]):
                             p.outbox.pop(0)
@@ -1012,6 +1014,7 @@ class WorldImpl(World):
                     else:
                         # read nothing this turn: the data is still pending, the world is not quiescent
                         self.activity += 1
+                        self.progress += 1
             # origin connections created during this turn act from the next turn on
             return self.activity != before
         finally:
